@@ -124,8 +124,20 @@ func (l *LSTM) Apply(inputs []tensor.Tensor) ([]tensor.Tensor, error) {
 	// Reshape the hidden and cell tensor without the bidirectional dimension, as
 	// we do not support bidirectional yet. This is the dimension at
 	// index 0.
+	// The initial states can be weights of the model or tensors owned by the
+	// caller, so reshape copies instead of the tensors themselves.
+	Ht, ok := Ht.Clone().(tensor.Tensor)
+	if !ok {
+		return nil, ops.ErrTypeAssert("tensor.Tensor", Ht)
+	}
+
 	if err = Ht.Reshape(Ht.Shape().Clone()[1:]...); err != nil {
 		return nil, err
+	}
+
+	Ct, ok = Ct.Clone().(tensor.Tensor)
+	if !ok {
+		return nil, ops.ErrTypeAssert("tensor.Tensor", Ct)
 	}
 
 	if err = Ct.Reshape(Ct.Shape().Clone()[1:]...); err != nil {
